@@ -42,13 +42,14 @@ try:
         print("REJECT: does not build:\n" + out[-2000:]); sys.exit(1)
     tests = sorted(set(pkgs + ["./protocol/...", "./database/...", "./test", "./netsync/chainmgr", "./wallet/...", "./proposal/..."]))
     rc, out = sh("go test -count=1 -p 6 %s 2>&1 | grep -v 'no test files' | grep -v '^ok' | head -40" % " ".join(tests), cwd=wt)
-    fails = [l for l in out.splitlines() if l.startswith("FAIL") or l.startswith("--- FAIL")]
+    norm = lambda l: re.sub(r"\s+\(?[0-9.]+s\)?$", "", l.strip())
+    fails = [norm(l) for l in out.splitlines() if l.startswith("FAIL") or l.startswith("--- FAIL")]
     res["existing_tests"] = "pass" if not fails else fails
     if fails:
         # compare with the unchanged tree (some tests are flaky / pre-existing failures)
         sh("git apply -R %s/patch.diff" % src, cwd=wt)
         rc2, out2 = sh("go test -count=1 -p 6 %s 2>&1 | grep -v 'no test files' | grep -v '^ok' | head -40" % " ".join(tests), cwd=wt)
-        base = [l for l in out2.splitlines() if l.startswith("FAIL") or l.startswith("--- FAIL")]
+        base = [norm(l) for l in out2.splitlines() if l.startswith("FAIL") or l.startswith("--- FAIL")]
         sh("git apply %s/patch.diff" % src, cwd=wt)
         new = [f for f in fails if f not in base]
         res["existing_tests_baseline_fails"] = base
